@@ -91,3 +91,8 @@ pub fn v_string_from(s: &str) -> (r: String) ensures r@ == s@ { String::from(s) 
 pub uninterp spec fn parse_usize_spec(s: Seq<char>) -> Option<usize>;
 #[verifier::external_body]
 pub fn v_parse_usize(s: &str) -> (r: Result<usize, ()>) ensures (r is Ok) == (parse_usize_spec(s@) is Some), r is Ok ==> r->Ok_0 == parse_usize_spec(s@)->0 { s.parse::<usize>().map_err(|_| ()) }
+// R11: std collection helpers without a vstd specification
+pub assume_specification<T: PartialEq> [ <[T]>::contains ] (s: &[T], x: &T) -> (r: bool) ensures r == s@.contains(*x);
+pub assume_specification<T: Ord> [ core::cmp::min ] (a: T, b: T) -> T;
+#[verifier::external_body]
+pub fn v_min_usize(a: usize, b: usize) -> (r: usize) ensures r == (if a <= b { a } else { b }) { core::cmp::min(a, b) }
